@@ -166,7 +166,10 @@ def low(t):
 
 
 def spec_cpython(ver, abis, plats):
-    given = [a for a in abis if a not in ("abi3", "none")]
+    given = list(abis)                      # an explicit abi3/none is taken out (once): it has its fixed position
+    for x in ("abi3", "none"):
+        if x in given:
+            given.remove(x)
     interp = "cp" + "".join(map(str, ver))
     ok = (len(ver) == 2 and (ver[0] > 3 or (ver[0] == 3 and ver[1] >= 2))
           and not (given and is_free_threaded(given[0])))
@@ -248,13 +251,13 @@ class C15(Prop):
     lean_modules = ["PkgProofs.Props.C15"]
     generated = ["TagTables"]
     theorems = [
-        "C15.cpython_eq_spec_partial", "C15.cpython_empty_platforms_not_spec", "C15.cpython_defaults",
-        "C15.compatible_eq_spec_partial", "C15.compatible_empty_platforms_not_spec",
-        "C15.generic_eq_spec_partial", "C15.sys_is_concat", "C15.sys_eq_spec_cpython",
+        "C15.cpython_eq_spec", "C15.cpython_empty_platforms", "C15.cpython_defaults",
+        "C15.compatible_eq_spec", "C15.compatible_empty_platforms", "C15.generic_eq_spec",
+        "C15.sys_is_concat", "C15.sys_eq_spec_cpython",
         "C15.cpython_platform_order_kept", "C15.compatible_platform_order_kept", "C15.generic_platform_order_kept",
         "C15.cpython_nodup", "C15.compatible_nodup", "C15.generic_nodup",
-        "C15.abi3_from_3_2_only", "C15.no_abi3_when_threaded", "C15.major_only_yields_given_abis_and_none",
-        "C15.default_abis_table", "C15.short_names_table",
+        "C15.abi3_from_3_2_only", "C15.abi3_down_to_3_2", "C15.no_abi3_when_threaded",
+        "C15.major_only_yields_given_abis_and_none", "C15.default_abis_table", "C15.short_names_table",
     ]
     rule = ("cpython_tags / compatible_tags / generic_tags / sys_tags / _cpython_abis / _generic_abi on versions "
             "(2.x, 3.0..3.25, 4.x, major-only, empty, None; boundaries 2.7/3.1/3.2/3.3/3.7/3.8/3.12/3.13 on purpose), ABI lists "
@@ -265,10 +268,10 @@ class C15(Prop):
     trusted = ["str.lower and \\d restricted to ASCII inputs (Tag lower-casing modelled by ASCII lower-casing)",
                "list(platform_tags()) enters the C15 model as data (its content is C16's subject)",
                "config values are None, non-negative ints or strs"]
-    partial = ["platforms=[] (an explicitly empty platform list) is replaced by the detected platforms: the refinement "
-               "theorems carry the hypothesis `plats ≠ []` and the negation is proved at a witness (proposed finding)",
-               "cpython refinement assumes 'abi3' and 'none' occur at most once in the ABI list (list.remove drops the first only)",
-               "non-ASCII ABI/platform/interpreter strings"]
+    partial = ["non-ASCII ABI/platform/interpreter strings (str.lower, \\d outside ASCII) are outside model and theorems",
+               "three-or-more-component python_version tuples are modelled and compared but not covered by the refinement theorems",
+               "no-repeat theorems assume no ABI is a differently-cased spelling of abi3/none (e.g. 'ABI3'): such a name is "
+               "not recognised as the explicit ABI by the code and then collides with it after Tag lower-casing"]
     budget = {"quick": (2500, 2500), "thorough": (40000, 40000)}
 
     # ---- correspondence
@@ -387,7 +390,6 @@ class C15(Prop):
             sd = rng.randrange(1 << 30)
             if r < 0.3:
                 abis = gen_abis(rng, odd_case=rng.random() < 0.3)
-                abis = _at_most_once(abis)
                 yield ("cpython_is_spec", {"ver": gen_ver(rng, False), "abis": abis, "plats": gen_plats(rng)})
             elif r < 0.45:
                 yield ("compatible_is_spec", {"ver": gen_ver(rng, False), "interp": rng.choice([None, "", "cp312", "pp3", "Foo"]),
@@ -412,29 +414,35 @@ class C15(Prop):
             k += 1
 
     def check_law(self, law, inp):
+        try:
+            return self._check_law(law, inp)
+        except T.OutOfDomain as e:
+            return True, "outside the law's domain: " + str(e)
+
+    def _check_law(self, law, inp):
         from packaging import tags
         if law in ("cpython_is_spec", "compatible_is_spec", "generic_is_spec"):
             plats = inp["plats"]
             strings = list(plats) + list(inp.get("abis") or []) + [inp.get("interp") or ""]
             if not all(isinstance(s, str) and T.is_ascii(s) for s in strings):
-                raise ValueError("outside the law's domain: non-ASCII")
+                raise T.OutOfDomain("outside the law's domain: non-ASCII")
             probe = inp.get("probe") or DEFAULT_PROBE
             with T.probes(probe):
                 if law == "cpython_is_spec":
                     ver, abis = tuple(inp["ver"]), inp["abis"]
-                    if len(ver) not in (1, 2) or abis.count("abi3") > 1 or abis.count("none") > 1:
-                        raise ValueError("outside the law's domain")
+                    if len(ver) not in (1, 2):
+                        raise T.OutOfDomain("outside the law's domain")
                     got = triples(tags.cpython_tags(ver, abis=list(abis), platforms=list(plats)))
                     want = spec_cpython(ver, abis, plats)
                 elif law == "compatible_is_spec":
                     ver = tuple(inp["ver"])
                     if len(ver) not in (1, 2):
-                        raise ValueError("outside the law's domain")
+                        raise T.OutOfDomain("outside the law's domain")
                     got = triples(tags.compatible_tags(ver, interpreter=inp["interp"], platforms=list(plats)))
                     want = spec_compatible(ver, inp["interp"], plats)
                 else:
                     if not inp["interp"]:
-                        raise ValueError("outside the law's domain")
+                        raise T.OutOfDomain("outside the law's domain")
                     got = triples(tags.generic_tags(inp["interp"], abis=list(inp["abis"]), platforms=list(plats)))
                     want = spec_generic(inp["interp"], inp["abis"], plats)
             if got != want:
@@ -443,24 +451,24 @@ class C15(Prop):
         if law == "no_repeats":
             ver, abis, plats, interp = tuple(inp["ver"]), inp["abis"], inp["plats"], inp["interp"]
             if not all(T.is_ascii(s) for s in list(abis) + list(plats) + [interp or ""]):
-                raise ValueError("non-ASCII")
+                raise T.OutOfDomain("non-ASCII")
             if not plats or not no_repeats([p.lower() for p in plats]) or not no_repeats([a.lower() for a in abis]):
-                raise ValueError("inputs have repeats")
+                raise T.OutOfDomain("inputs have repeats")
             if any(a.lower() in ("abi3", "none") and a not in ("abi3", "none") for a in abis):
-                raise ValueError("non-canonical spelling of abi3/none")
+                raise T.OutOfDomain("non-canonical spelling of abi3/none")
             if len(ver) not in (1, 2):
-                raise ValueError("outside the law's domain")
+                raise T.OutOfDomain("outside the law's domain")
             which = inp["which"]
             with T.probes(DEFAULT_PROBE):
                 if which == "cpython":
                     got = triples(tags.cpython_tags(ver, abis=list(abis), platforms=list(plats)))
                 elif which == "compatible":
                     if "any" in [p.lower() for p in plats] or (interp and interp.lower() in spec_py_range(ver)):
-                        raise ValueError("'any' among the platforms / interpreter inside the py range")
+                        raise T.OutOfDomain("'any' among the platforms / interpreter inside the py range")
                     got = triples(tags.compatible_tags(ver, interpreter=interp, platforms=list(plats)))
                 elif which == "generic":
                     if not interp:
-                        raise ValueError("outside the law's domain")
+                        raise T.OutOfDomain("outside the law's domain")
                     got = triples(tags.generic_tags(interp, abis=list(abis), platforms=list(plats)))
                 else:
                     raise KeyError(which)
@@ -483,7 +491,7 @@ class C15(Prop):
                 try:
                     got = triples(tags.sys_tags())
                 except Exception:
-                    raise ValueError("sys_tags raises under this configuration (outside the law's domain)")
+                    raise T.OutOfDomain("sys_tags raises under this configuration (outside the law's domain)")
                 name = tags.interpreter_name()
                 ver = tuple(probe["sys_version"])
                 nodot = probe["config"].get("py_version_nodot")
@@ -496,14 +504,14 @@ class C15(Prop):
                     interp = "pp3" if name == "pp" else None
                 want = first + spec_compatible(ver, interp, detected)
             if not detected:
-                raise ValueError("no platform detected")
+                raise T.OutOfDomain("no platform detected")
             if got != want:
                 return False, "sys_tags is not interpreter-specific ++ compatible: " + first_diff(got, want)
             return True, ""
         if law == "default_abis":
             probe, ver = inp["probe"], tuple(inp["ver"])
             if len(ver) != 2:
-                raise ValueError("outside the law's domain")
+                raise T.OutOfDomain("outside the law's domain")
             with T.probes(probe):
                 got = tags._cpython_abis(ver)
             want = spec_default_abis(ver, *probe_flags(probe))
